@@ -71,7 +71,7 @@ def all_cases(ctx):
     base = F.f_shape() + [c for c in F.f_unit(3, pairs=False)] + F.f_rand(ctx.seed, 20 if ctx.quick else 150, consts=None)
     out = []
     for cid, spec in base:
-        for variant in ("self", "copy", "restructured", "mutant", "renamed_input"):
+        for variant in ("self", "copy", "restructured", "mutant", "renamed_input", "input_is_gate"):
             out.append((cid + (variant,), (spec, variant)))
     return out
 
@@ -99,6 +99,13 @@ def run(ctx):
             if spec1 is None:
                 ctx.rejected("no gate to mutate")
                 continue
+        elif variant == "input_is_gate":
+            # c1: one input of c0 is an internal gate (of fresh inputs) there, so it is NOT a shared startpoint
+            ins = sorted(A0.inputs())
+            victim = ins[-1]
+            t = rng.choice(["and", "or", "xor", "nand"])
+            spec1 = {"name": spec0["name"] + "_ig", "nodes": [[n, (t if n == victim else ty), o] for n, ty, o in spec0["nodes"]] + [["zp_" + victim, "input", False], ["zq_" + victim, "input", False]],
+                     "edges": [list(e) for e in spec0["edges"]] + [["zp_" + victim, victim], ["zq_" + victim, victim]], "bbs": {}}
         else:
             ins = sorted(A0.inputs())
             victim = ins[0]
